@@ -23,6 +23,7 @@ EXPLANATION = (
     "Does NOT decide: equality of every answer and of the subsequent evolution (behavioural).")
 RULES = {
     'R1': 'SER(T) for every state ADT; omitted fields ⊆ reviewed table with re-checked evidence',
+    'R1c': 'the recompute arm of the optional fee cache agrees with the insertion-time computation (= C15.R2/R3)',
     'R2': 'reset_syncing_state before serialisation and after set_state',
     'R3': 'cache re-attachment dominates publication of the restored state',
     'R4': 'config argument applied after restore; field exhaustiveness of set_config_no_verification',
@@ -114,6 +115,11 @@ def run(ctx):
     r1(ctx)
     r2_r3_r4(ctx)
     r5(ctx)
+    # evidence (c) for CachedBlock.fee_rates: the recompute arm yields what the insertion-time cache held —
+    # same fee computation, same transaction order, same selection window (shared with C15.R2/R3)
+    from sa.engine import SubCtx
+    from rules import c15
+    c15.run(SubCtx(ctx, {'R2': 'R1c', 'R3': 'R1c'}))
 
 
 def r1(ctx):
